@@ -136,6 +136,13 @@ def check_shared(c):
     h = guard(make, name)
     macs = [guard(HMAC, h, K) for K in c["keys"]]
     for i, (who, M) in enumerate(c["calls"]):
+        if who == "option":
+            # the borrowed hash instance is used once with a per-call option (BLAKE salt, a bit length): not judged
+            if name.startswith("blake"):
+                attempt(h, M, s=0x0123456789abcdef0fedcba987654321)
+            else:
+                attempt(h, M + b"x", bitlen=8 * len(M) + 3)
+            continue
         if who == "stream":
             # somebody streams a block into the borrowed hash instance and never finishes (not judged)
             if len(M) % 2:
@@ -158,7 +165,7 @@ def shared_strategy(tier):
     def for_hash(name):
         B = blockbytes(name)
         kl = gen.pick((2, st.sampled_from([0, 1, B - 1, B, B + 1, 2 * B])), (2, gen.uint(0, B)), (1, gen.uint(B + 1, 2 * B + 5)))
-        call = st.tuples(gen.pick((4, gen.uint(0, 5)), (1, st.just("hash")), (1, st.just("stream"))), gen.blob_of(gen.pick((3, gen.uint(0, B + 3)), (1, st.sampled_from([B, 2 * B])))))
+        call = st.tuples(gen.pick((4, gen.uint(0, 5)), (1, st.just("hash")), (1, st.just("stream")), (1, st.just("option"))), gen.blob_of(gen.pick((3, gen.uint(0, B + 3)), (1, st.sampled_from([B, 2 * B])))))
         return st.builds(lambda ks, calls: {"hash": name, "keys": tuple(ks), "calls": tuple(calls) + ((0, b"after"),) * isinstance(calls[-1][0], str)},
                          st.lists(gen.blob_of(kl), min_size=2, max_size=3), st.lists(call, min_size=3, max_size=6))
     return st.sampled_from(HASHES).flatmap(for_hash)
@@ -183,7 +190,8 @@ FACETS = [
     Facet("shared-hash-histories", check_shared, strategy=shared_strategy, budget={"quick": 500, "thorough": 10000},
           nontrivial=lambda c: True,
           classify=lambda c: (c["hash"], "plain hash call in between" if any(w == "hash" for w, _ in c["calls"]) else "no plain hash call",
-                              "unfinished stream on the hash instance" if any(w == "stream" for w, _ in c["calls"]) else "no stream"),
+                              "unfinished stream on the hash instance" if any(w == "stream" for w, _ in c["calls"]) else "no stream",
+                              "per-call option used on the hash instance" if any(w == "option" for w, _ in c["calls"]) else "no option call"),
           rule="2..3 HMAC objects with different keys over ONE hash instance, 3..6 interleaved calls (and plain digests by that instance): "
                "every MAC == RFC 2104 value, every plain digest == the hash's own"),
     Facet("setkey-histories", check_setkey, strategy=setkey_strategy, budget={"quick": 600, "thorough": 12000},
